@@ -59,6 +59,10 @@ func (r *run) buildRules(l []interface{}, defIv int64) (rules []*flow.Rule, out 
 		if ref != 0 {
 			fr.RelationStrategy = flow.AssociatedResource
 			fr.RefResource = r.name(ref)
+		} else if left := hx.Int(m, "leftref"); left != 0 {
+			// a rule that limits its OWN resource (RelationStrategy CurrentResource) but carries a left-over RefResource:
+			// the field is meaningless for this strategy and must not influence anything
+			fr.RefResource = r.name(left)
 		}
 		rules = append(rules, fr)
 		eff := iv
